@@ -561,7 +561,7 @@ example :
 /-- The ids of the two `DictChanges` blocks and of the star-import `enter_file` resolve. -/
 example : kindOfId "rattr/analyser/file.py::FileAnalyser.visit_AnyAssign::with DictChanges#0" = some .propagate
     ∧ kindOfId "rattr/models/context/_root_context.py::RootContextBuilder.visit_assignment::with DictChanges#0" = some .propagate
-    ∧ kindOfId "rattr/models/context/_context.py::Context.expand_starred_imports::with enter_file#0" = some .propagate
+    ∧ kindOfId "rattr/models/context/_context.py::Context.expand_starred_imports::with enter_file#2" = some .propagate
     ∧ kindOfId "rattr/analyser/util.py::parse_rattr_results_from_annotation_args_impl::except SystemExit#0" = some .catchReemit := by
   decide
 
